@@ -8,6 +8,7 @@ import (
 	"strings"
 
 	"github.com/facebookincubator/dns/dnsrocks/db"
+	"github.com/facebookincubator/dns/dnsrocks/dnsserver"
 	"github.com/miekg/dns"
 
 	"verifharness/dnsfix"
@@ -327,6 +328,7 @@ type universe struct {
 	backend dnsfix.Backend
 	path    string
 	h       *dnsfix.Handler
+	hc      *dnsfix.Handler   // second handler on the same store, response cache enabled
 	zones   map[string]string // set key -> zone
 	texts   map[string]string
 }
@@ -375,6 +377,33 @@ func (u *universe) world(set []sym) *world {
 	w.text = skeleton + u.texts[setKey(set)] + "(... the records of the other candidate sets of this store, each below its own p<k>.example.com ...)\n"
 	w.calibrate()
 	return w
+}
+
+// the response-cache configuration of part 1b: enabled, weighted answers cached too (WRSTimeout > 0), and a
+// lifetime that no run reaches (nothing depends on the wall clock)
+var cacheCfg = dnsserver.CacheConfig{Enabled: true, LRUSize: 1 << 12, WRSTimeout: 1 << 40}
+
+// cached returns the handler with the response cache enabled over the world's database (opened on first use).
+func (w *world) cached() *dnsfix.Handler {
+	if w.shared {
+		u := universes[w.backend]
+		if u.hc == nil {
+			h, err := dnsfix.OpenHandler(w.backend, u.path, dnsfix.HandlerOpts{Cache: cacheCfg})
+			if err != nil {
+				vlib.Infra("cache-enabled handler %s: %v", u.path, err)
+			}
+			u.hc = h
+		}
+		return u.hc
+	}
+	if w.hc == nil {
+		h, err := dnsfix.OpenHandler(w.backend, w.path, dnsfix.HandlerOpts{Cache: cacheCfg})
+		if err != nil {
+			vlib.Infra("cache-enabled handler %s: %v", w.path, err)
+		}
+		w.hc = h
+	}
+	return w.hc
 }
 
 func (w *world) close() {
@@ -477,6 +506,9 @@ func closeWorlds() {
 		cache.m, cache.order = map[string]*world{}, nil
 	}
 	for b, u := range universes {
+		if u.hc != nil {
+			u.hc.Close()
+		}
 		u.h.Close()
 		os.RemoveAll(u.path)
 		delete(universes, b)
